@@ -31,6 +31,9 @@ func (c *hctx) lhsVar(l ast.Expr) *hvar {
 		if c.cellSel(v) != nil {
 			return c.heap
 		}
+		if c.eptrIdent(v.X) {
+			return c.heap // a store through a pointer into a slice field of a cell
+		}
 		return c.lhsVar(v.X)
 	case *ast.IndexExpr:
 		return c.lhsVar(v.X)
@@ -98,6 +101,14 @@ func (c *hctx) assigned(nodes ...ast.Node) map[*hvar]bool {
 							if ht := g.typeOf(tv.Type, nil); ht != nil && ht.k == "hptr" {
 								wr(c.heap)
 							}
+						}
+					}
+				}
+			case *ast.CompositeLit:
+				if tv, ok := g.info.Types[v]; ok {
+					if _, isPtr := types.Unalias(tv.Type).(*types.Pointer); isPtr {
+						if ht := g.typeOf(tv.Type, nil); ht != nil && ht.k == "hptr" {
+							wr(c.heap)
 						}
 					}
 				}
@@ -277,7 +288,9 @@ func (c *hctx) retStmt(v *ast.ReturnStmt) term {
 			if t.k == "func" {
 				c.lostAt(r, "returned function value")
 			}
-			if t.k == "nil" && res[i].k != "hptr" {
+			if t.k == "nil" && res[i].k == "slice" {
+				x = "[]" // the nil slice
+			} else if t.k == "nil" && res[i].k != "hptr" {
 				c.lostAt(r, "returned nil")
 			}
 			vals = append(vals, x)
@@ -305,13 +318,19 @@ func (c *hctx) ifStmt(v *ast.IfStmt, k func() term) term {
 	}
 	fa, fb := canFall(v.Body.List), canFall(el)
 	none := func() term { return tRaw{"Panic (PMsg \"unreachable\")"} }
+	// the state of the element pointers follows the control flow: each branch starts from the state here
+	ep0 := c.epSave()
+	second := func(list []ast.Stmt, k func() term) term {
+		c.epRestore(ep0)
+		return c.stmts(list, k)
+	}
 	switch {
 	case !fa && !fb:
-		return wrap(pre, tIf{cond, c.stmts(v.Body.List, none), c.stmts(el, none)})
+		return wrap(pre, tIf{cond, c.stmts(v.Body.List, none), second(el, none)})
 	case !fa:
-		return wrap(pre, tIf{cond, c.stmts(v.Body.List, none), c.stmts(el, k)})
+		return wrap(pre, tIf{cond, c.stmts(v.Body.List, none), second(el, k)})
 	case !fb:
-		return wrap(pre, tIf{cond, c.stmts(v.Body.List, k), c.stmts(el, none)})
+		return wrap(pre, tIf{cond, c.stmts(v.Body.List, k), second(el, none)})
 	}
 	abrupt := hasAbrupt(v.Body)
 	if v.Else != nil && hasAbrupt(v.Else) {
@@ -319,7 +338,7 @@ func (c *hctx) ifStmt(v *ast.IfStmt, k func() term) term {
 	}
 	if abrupt {
 		// a branch may leave early and may fall through: the continuation is written in both
-		return wrap(pre, tIf{cond, c.stmts(v.Body.List, k), c.stmts(el, k)})
+		return wrap(pre, tIf{cond, c.stmts(v.Body.List, k), second(el, k)})
 	}
 	var nodes []ast.Node
 	nodes = append(nodes, v.Body)
@@ -332,13 +351,18 @@ func (c *hctx) ifStmt(v *ast.IfStmt, k func() term) term {
 			m = append(m, x)
 		}
 	}
-	join := func() term { return tOk{tuple(hnames(m))} }
+	var ends []map[*hvar]hepState
+	join := func() term {
+		ends = append(ends, c.epSave())
+		return tOk{tuple(hnames(m))}
+	}
 	pat := tuple(hnames(m))
 	if len(m) == 0 {
 		pat = "_"
 	}
 	a := c.stmts(v.Body.List, join)
-	b := c.stmts(el, join)
+	b := second(el, join)
+	c.epMerge(ends)
 	if len(m) == 0 && isPure(a) && isPure(b) {
 		return wrap(pre, k())
 	}
@@ -356,6 +380,9 @@ func (c *hctx) assign(v *ast.AssignStmt, k func() term) term {
 			c.lostAt(v, "assignment %s", v.Tok)
 		}
 		return c.opAssign(v.Lhs[0], v.Rhs[0], op, v, k)
+	}
+	if c.bindsEptr(v) {
+		return c.assignEptr(v, k) // p := slice.PtrAt(O.F, i): a pointer into a slice field of a cell
 	}
 	var pre []hbind
 	// a, b := f(x)
@@ -377,6 +404,9 @@ func (c *hctx) assign(v *ast.AssignStmt, k func() term) term {
 		c.lostAt(v, "assignment arity")
 	}
 	if len(v.Lhs) == 1 {
+		if c.pathSliceUpdate(v, &pre) { // O.F = O.F[lo:hi], p.G = append(p.G, ...): a slice field of a cell / of an element
+			return wrap(pre, k())
+		}
 		if t := c.sliceUpdate(v, &pre); t {
 			return wrap(pre, k())
 		}
@@ -577,6 +607,9 @@ func (c *hctx) storePrep(l ast.Expr, st *ast.AssignStmt, pre *[]hbind) func(val 
 			_ = pt
 			return func(val string, t *hty) {
 				h := c.needHeap(l)
+				if t != nil && t.k == "slice" {
+					c.fieldStored(v, cs, st, pre) // the element pointers into this field are detached
+				}
 				cv := c.tmp()
 				rec := "mk_" + cs.name
 				for _, f := range cs.fnames {
@@ -588,6 +621,9 @@ func (c *hctx) storePrep(l ast.Expr, st *ast.AssignStmt, pre *[]hbind) func(val 
 				}
 				*pre = append(*pre, hbind{pat: h, m: tRaw{"go_hmod " + h + " " + addr + " (fun " + cv + " => " + rec + ")"}, effect: true})
 			}
+		}
+		if ep := c.eptrVar(v.X); ep != nil {
+			return c.eptrStore(ep, v, pre) // p.f = e through a pointer into a slice field of a cell
 		}
 		// x.f = e on a struct-valued variable or field of the receiver
 		x := c.structVar(v.X)
@@ -710,6 +746,9 @@ func (c *hctx) rangeStmt(v *ast.RangeStmt, k func() term) term {
 		var xv *hvar
 		if ok {
 			xv = c.lookup(id)
+		}
+		if se, isWin := ast.Unparen(v.X).(*ast.SliceExpr); isWin {
+			xv = c.rangeWindow(v, se, &pre) // for ... := range xs[lo:hi]: the window as a list of its own
 		}
 		if xv == nil || xv.typ.k != "slice" {
 			c.lostAt(v, "range over %s (must be a slice variable)", src(v.X))
@@ -847,6 +886,8 @@ func (c *hctx) loop(ls *hloopSpec, k func() term) term {
 		return tRaw{recMark}
 	}
 	c.loops = append(c.loops, lc)
+	c.epLoopCheck(ls.body)
+	epBefore := c.epSave()
 	var bodyPre []hbind
 	if ls.bodyPre != nil {
 		bodyPre = ls.bodyPre()
@@ -861,6 +902,7 @@ func (c *hctx) loop(ls *hloopSpec, k func() term) term {
 		fixBody = bodyT
 	}
 	c.loops = c.loops[:len(c.loops)-1]
+	c.epRestore(epBefore)
 	fixBody = simp(fixBody)
 	rendered := render(fixBody, 2, false)
 	// the read-only arguments: the variables declared outside the loop that the body mentions
@@ -989,8 +1031,20 @@ func (c *hctx) sliceUpdate(v *ast.AssignStmt, pre *[]hbind) bool {
 		if !isBuiltin(r, "append", len(r.Args)) || len(r.Args) < 1 {
 			return false
 		}
-		if x == nil || c.sliceVar(r.Args[0]) != x || r.Ellipsis.IsValid() || v.Tok != token.ASSIGN {
+		if x == nil || c.sliceVar(r.Args[0]) != x || v.Tok != token.ASSIGN {
 			c.lostAt(v, "append (only x = append(x, e...) on a slice variable or receiver field)")
+		}
+		if r.Ellipsis.IsValid() {
+			// x = append(x, ys...): the elements of ys after those of x
+			if len(r.Args) != 2 {
+				c.lostAt(v, "append")
+			}
+			y, t := c.expr(r.Args[1], pre)
+			if t.k != "slice" {
+				c.lostAt(v, "append of %s...", src(r.Args[1]))
+			}
+			*pre = append(*pre, hbind{pat: x.name, e: x.name + " ++ " + paren(y), isLet: true, effect: true})
+			return true
 		}
 		var xs []string
 		for _, a := range r.Args[1:] {
